@@ -245,17 +245,20 @@ func (p *Processor) ChargingDataCreate(
 
 	ue.Cdr[chargingSessionId] = cdr
 	ue.Records = append(ue.Records, ue.Cdr[chargingSessionId])
-	ue.CULock.Unlock()
 
 	if chargingData.OneTimeEvent {
+		// the record is among the subscriber's records from here on (an update of another session reads
+		// them to write the CDR file): close it while the subscriber's lock is still held
 		err = p.CloseCDR(cdr, false)
 		if err != nil {
+			ue.CULock.Unlock()
 			problemDetails := &models.ProblemDetails{
 				Status: http.StatusBadRequest,
 			}
 			return nil, "", problemDetails
 		}
 	}
+	ue.CULock.Unlock()
 
 	// CDR Transfer
 	err = cgf.SendCDR(chargingData.SubscriberIdentifier)
